@@ -613,7 +613,27 @@ fn apply_byte_fault(rng: &mut Rng, kind: &str, files: &mut [(String, Vec<u8>)]) 
         "nesting_bomb" => {
             // Up to a few kilobytes of nesting.
             let depth = *rng.pick(&[8usize, 64, 200, 400, 800]);
-            let bomb = match rng.below(8) {
+            let bomb = match rng.below(12) {
+                // A generic-looking name nested in itself, declared and used.
+                8 => {
+                    let name = format!("{}A{}", "A<".repeat(depth), ">".repeat(depth));
+                    format!("#[size(4), align(4)]\nextern type {name};\ntype Bomb {{ a: {name} }}\n")
+                }
+                // Rust that nests deeply inside a backend block.
+                9 => format!(
+                    "backend rust prologue \"type Deep = {}u8;\";\n",
+                    "&".repeat(depth)
+                ),
+                10 => format!(
+                    "backend rust epilogue \"const DEEP: u32 = {}1{};\";\n",
+                    "(".repeat(depth),
+                    ")".repeat(depth)
+                ),
+                11 => format!(
+                    "backend rust prologue \"type Deep = {}u8{};\";\n",
+                    "[".repeat(depth),
+                    "; 1]".repeat(depth)
+                ),
                 4 => format!("type Bomb {{ a: {}u8{} }}\n", "*mut [".repeat(depth / 2), "; 1]".repeat(depth / 2)),
                 5 => format!(
                     "type Bomb {{ vftable {{ fn f(&self, a: {}u8) -> {}u8; }} }}\n",
